@@ -39,6 +39,10 @@ func generateAllPossibleMRTDs(uefi []byte, tdxRequest *EndorsementRequest) ([]*e
 	var result []*epb.VMTdx_Measurement
 	// Deprecated: To be removed.
 	for _, shape := range tdxRequest.MachineShapes {
+		// An unknown shape has no RAM layout to measure; do not sign a RAM-0 placeholder row for it.
+		if _, err := machineTypeToRAMBanks(shape); err != nil {
+			return nil, err
+		}
 		options := LaunchOptionsDefaultTDHOBBug(shape)
 		meas, err := MRTD(options, uefi)
 		if err != nil {
